@@ -55,14 +55,14 @@ def sortOrd : List WS → List WS
 def candidates (index : List WS) : List WS :=
   blDesc.flatMap (fun bl => (sortOrd index).filter (fun w => w.bl == bl))
 
-/-- `fillSpaceListBySize` / `fillSpaceListByPathSize` (the loop): take every visited space that still fits -/
-def fill (pred : WS → Bool) : List WS → Int → Int → List WS × Int
+/-- `fillSpaceListBySize` / `fillSpaceListByPathSize` (the loop): take every visited space that still fits.
+(The by-path variant skips spaces of other directories; the model hands it the directory's spaces only.) -/
+def fill : List WS → Int → Int → List WS × Int
   | [], cur, _ => ([], cur)
   | w :: r, cur, target =>
-    if !pred w then fill pred r cur target
-    else if cur + w.size > target then fill pred r cur target
+    if cur + w.size > target then fill r cur target
     else
-      let res := fill pred r (cur + w.size) target
+      let res := fill r (cur + w.size) target
       (w :: res.1, res.2)
 
 /-- the "target satisfied" test at the end of the fill functions -/
@@ -105,6 +105,9 @@ structure K where
   files : List WS := []          -- plot files on disk
   free : List (Nat × Nat) := []  -- free bytes per directory
 
+/-- `sk.dbDirs[0]` -/
+def K.dir0 (k : K) : Nat := k.dbDirs.headD 0
+
 def K.freeOf (k : K) (d : Nat) : Nat := ((k.free.find? (·.1 == d)).map (·.2)).getD 0
 
 /-- the spaces `generateNewWorkSpaceByPath` creates for a list of bit lengths: consecutive fresh ordinals -/
@@ -133,8 +136,8 @@ def K.apply (k : K) (sel created : List WS) : K × Res :=
 
 /-- one size request against one directory filter: the fill pass, then (if the target is not yet met) the
 disk check and the creation pass.  Returns the keeper after the creations. -/
-def K.sizeRequest (k : K) (pred : WS → Bool) (dir : Nat) (target : Int) : K × Except Err (List WS × List WS) :=
-  let f := fill pred (candidates k.index) 0 target
+def K.sizeRequest (k : K) (scope : WS → Bool) (dir : Nat) (target : Int) : K × Except Err (List WS × List WS) :=
+  let f := fill (candidates (k.index.filter scope)) 0 target
   if fillFinished f.2 target then (k, .ok (f.1, []))
   else if !k.allowNew then (k, .error .cannotGenerate)
   else match checkDisk (target - f.2) (k.freeOf dir) with
@@ -147,7 +150,7 @@ def K.sizeRequest (k : K) (pred : WS → Bool) (dir : Nat) (target : Int) : K ×
 def K.configureBySize (k : K) (targetU : Nat) : K × Res :=
   if targetU < minUsableSize then ({ k with configured := false }, { err := some .underSize })
   else
-    match k.sizeRequest (fun _ => true) (k.dbDirs.headD 0) (toInt64 targetU) with
+    match k.sizeRequest (fun _ => true) k.dir0 (toInt64 targetU) with
     | (k', .error e) => ({ k' with configured := false }, { err := some e })
     | (k', .ok (sel, new)) => k'.apply (sel ++ new) new
 
@@ -170,7 +173,7 @@ def K.pathLoop (k : K) : List (Nat × Int) → List WS → List WS → K × Exce
 def K.precheck (k : K) : List (Nat × Int) → Option Err
   | [] => none
   | (d, t) :: r =>
-    let f := fill (fun w => w.dir == d) (candidates k.index) 0 t
+    let f := fill (candidates (k.index.filter (fun w => w.dir == d))) 0 t
     if fillFinished f.2 t then K.precheck k r
     else if !k.allowNew then some .cannotGenerate
     else match checkDisk (t - f.2) (k.freeOf d) with
@@ -193,23 +196,37 @@ def K.configureByPath (k : K) (entries : List (Nat × Int)) : K × Res :=
 def takeBl (index : List WS) (bl count : Nat) : List WS :=
   ((sortOrd index).filter (fun w => w.bl == bl)).take count
 
+/-- the indexed spaces `fillSpaceListByBitLength` takes for a request -/
+def selByBl (index : List WS) (req : List (Nat × Nat)) : List WS :=
+  req.flatMap (fun x => takeBl index x.1 x.2)
+
+/-- the bit lengths of the spaces still to be created -/
+def missingBls (index : List WS) (req : List (Nat × Nat)) : List Nat :=
+  req.flatMap (fun x => List.replicate (x.2 - (takeBl index x.1 x.2).length) x.1)
+
+/-- the creation loop ranges over a Go map: `order` is the order in which it produced the new spaces' bit lengths
+(observed); it is used when it is a rearrangement of what is missing -/
+def newBls (index : List WS) (req : List (Nat × Nat)) (order : List Nat) : List Nat :=
+  if order.all (fun b => req.any (fun p => p.1 == b)) &&
+     req.all (fun x => order.count x.1 == (missingBls index req).count x.1) then order else missingBls index req
+
+def blFinished (index : List WS) (req : List (Nat × Nat)) : Bool :=
+  req.all (fun x => (index.any (fun w => w.bl == x.1)) && (takeBl index x.1 x.2).length == x.2)
+
+def blRequired (index : List WS) (req : List (Nat × Nat)) : Int :=
+  (req.map (fun x => ((x.2 - (takeBl index x.1 x.2).length : Nat) : Int) * plotSize x.1)).sum
+
 /-- `ConfigureByBitLength` (counts are natural numbers: `DecodeProofList` rejects negative ones; the request is
-a map, so bit lengths are distinct).  `order` is the order in which the creation loop — a Go map iteration —
-produced the new spaces' bit lengths; it must be a rearrangement of what is missing. -/
+a map, so bit lengths are distinct) -/
 def K.configureByBitLength (k : K) (req : List (Nat × Nat)) (order : List Nat) : K × Res :=
-  let sel := req.flatMap (fun (bl, c) => takeBl k.index bl c)
-  let missing := req.flatMap (fun (bl, c) => List.replicate (c - (takeBl k.index bl c).length) bl)
-  let finished := req.all (fun (bl, c) => (k.index.any (fun w => w.bl == bl)) && (takeBl k.index bl c).length == c)
-  if finished then k.apply sel []
+  if blFinished k.index req then k.apply (selByBl k.index req) []
   else if !k.allowNew then ({ k with configured := false }, { err := some .cannotGenerate })
   else
-    let required : Int := ((req.map (fun (bl, c) => ((c - (takeBl k.index bl c).length : Nat) : Int) * plotSize bl)).sum)
-    match checkDisk required (k.freeOf (k.dbDirs.headD 0)) with
+    match checkDisk (blRequired k.index req) (k.freeOf k.dir0) with
     | some e => ({ k with configured := false }, { err := some e })
     | none =>
-      let bls := if order.length == missing.length && req.all (fun (bl, _) => order.count bl == missing.count bl) then order else missing
-      let new := mkNew (k.dbDirs.headD 0) bls k.nextOrd
-      (k.addNew new).apply (sel ++ new) new
+      let new := mkNew k.dir0 (newBls k.index req order) k.nextOrd
+      (k.addNew new).apply (selByBl k.index req ++ new) new
 
 /-! ### the API layer (api/spaces.v1.go, api/util.go) -/
 
@@ -227,11 +244,9 @@ def mibOverflows (capMiB : Nat) : Bool := decide (capMiB * Facts.pocMiB ≥ 2 ^ 
 /-- `ConfigureCapacity` from `checkMinerDiskSize` on (valid passphrase and payout addresses, keeper stopped) -/
 def K.apiConfigureCapacity (k : K) (capMiB : Nat) : K × Res :=
   if mibOverflows capMiB then (k, { err := some .apiInvalidCapacity })
-  else
-  let bytes := mibBytes capMiB
-  if bytes < plotSize Facts.minValidDefaultBitLength then (k, { err := some .apiInvalidCapacity })
-  else if bytes > k.freeOf (k.dbDirs.headD 0) then (k, { err := some .apiInvalidCapacity })
-  else k.configureBySize bytes
+  else if mibBytes capMiB < plotSize Facts.minValidDefaultBitLength then (k, { err := some .apiInvalidCapacity })
+  else if mibBytes capMiB > k.freeOf k.dir0 then (k, { err := some .apiInvalidCapacity })
+  else k.configureBySize (mibBytes capMiB)
 
 /-- the allocation loop of `ConfigureCapacityByDirs`: per allocation, in order, `checkMinerPathCapacity` -/
 def K.apiDirsCheck (k : K) : List (Nat × Nat) → Option Err
